@@ -581,6 +581,9 @@ class SymNum:
     def item(self):
         return self
 
+    def __format__(self, spec):
+        return repr(self)  # error messages of the repository format numbers ("{x:.4g}")
+
     def __repr__(self):
         if self.im is None:
             return f"Sym({self.re})"
